@@ -352,6 +352,14 @@ class MultiTypeMap(dict):
             nerr=self.key_error(tup, ()),
         )
 
+    def _raiser(self, obj_t_tup, group):
+        err = self.key_error(obj_t_tup, group)
+
+        def raise_error(*args, **kwargs):
+            raise err
+
+        return raise_error
+
     def resolve(self, obj_t_tup):
         results = self.mro(obj_t_tup)
         if not results:
@@ -362,9 +370,13 @@ class MultiTypeMap(dict):
             handlers = [c.handler for c in group]
             dependent = any(self.dependent[c.handler] for c in group)
             if dependent:
-                nxt = self.wrap_dependent(
-                    obj_t_tup, handlers, group, funcs[-1] if funcs else None
-                )
+                below = funcs[-1] if funcs else None
+                if below is not None and below[0] is None:
+                    # The rank below is ambiguous: falling through to it must
+                    # raise that ambiguity, not the no-method error
+                    below_group = results[len(results) - len(funcs)]
+                    below = (self._raiser(obj_t_tup, below_group), below[1])
+                nxt = self.wrap_dependent(obj_t_tup, handlers, group, below)
             elif len(group) != 1:
                 nxt = None
             else:
